@@ -159,7 +159,7 @@ class Main(Part):
 
     def budget(self, tier):
         return {"quick": dict(examples=200, shards=6, seconds=80),
-                "thorough": dict(examples=2000, shards=16, seconds=900)}[tier]
+                "thorough": dict(examples=2000, shards=16, seconds=600)}[tier]
 
     def strategy(self, tier):
         return gen_metrics.case_metrics(n_min=1, n_max=4, max_extent=3, configs=("cfgA", "cfgB"))
@@ -186,7 +186,7 @@ class Shipped(Part):
 
     def budget(self, tier):
         return {"quick": dict(examples=30, shards=2, seconds=80),
-                "thorough": dict(examples=300, shards=8, seconds=900)}[tier]
+                "thorough": dict(examples=300, shards=8, seconds=600)}[tier]
 
     def strategy(self, tier):
         from .c03 import shrink_sizes
